@@ -25,11 +25,32 @@ def qi(x, tol=1e-9):
     return BADINT if r is None else r
 
 
+GROUTE = [0]
+
+
 def events_for(darsia, rng, shape, h, tid, integer_h):
     """h: voxel sizes. integer_h: log values as integers directly; otherwise normalise by the harness' own areas."""
     dim = len(shape)
-    grid = darsia.Grid(tuple(shape), [float(x) for x in h])
+    # the grid is built from the shape / voxel sizes in the forms callers hold them (tuple, list, integer or float arrays);
+    # an array handed over stays the caller's: it is refilled right after the grid exists (a work buffer for the next grid)
+    GROUTE[0] += 1
+    groute = GROUTE[0] % 4
+    if groute == 0:
+        grid = darsia.Grid(tuple(shape), [float(x) for x in h])
+    elif groute == 1:
+        harr = np.array([float(x) for x in h])
+        grid = darsia.Grid(list(shape), harr)
+        harr[...] = 7.25
+    elif groute == 2:
+        sarr, harr = np.array(shape, dtype=np.int64), np.array([float(x) for x in h], dtype=np.float64)
+        grid = darsia.Grid(sarr, voxel_size=harr)
+        harr *= 3.0
+        shape_written = not np.array_equal(sarr, np.array(shape))
+    else:
+        grid = darsia.Grid(shape=tuple(shape), voxel_size=tuple(float(x) for x in h))
     G = grid_tables(grid)
+    if groute == 2 and shape_written:
+        G["shape"] = [-1] * len(shape)           # the caller's shape array was written to: nothing built on it is trusted
     nf, nc = int(grid.num_faces), int(grid.num_cells)
     hspec = [int(x) for x in h] if integer_h else [1] * dim
     axis_of = {}
